@@ -18,6 +18,6 @@ PY
 rc=$?
 if [ $rc -ne 0 ]; then git checkout -- .; exit $rc; fi
 git diff | grep '^[+-][^+-]' | head -6
-touch /tmp/.mutstart; cd /verif && timeout 3000 ./check $prop --tier $tier | cut -c1-400 | tail -5
+touch /tmp/.mutstart; cd /verif && VERIF_EVIDENCE_DIR=/verif/run/scratch-evidence VERIF_REPLAY_DIR=/verif/run/scratch-replays timeout 3000 ./check $prop --tier $tier | cut -c1-400 | tail -5
 echo "mut rc=${PIPESTATUS[0]}"
 find /verif/replays -type f -newer /tmp/.mutstart -delete 2>/dev/null; cd /repo && git checkout -- .
